@@ -29,7 +29,7 @@ CHECKS["C05"] = {
     "text": "The universally quantified competitor circuits are decided exactly: the minimum two-qubit count for (n, connectivity, class) is the "
             "0/1-weighted shortest-path distance from |0..0> in the explicitly enumerated graph of ALL stabilizer states (15..4922775 states, "
             "local gates free, CZ on coupled pairs cost 1), computed on the full graph and again by BFS on the class quotient. It is compared with the "
-            "two-qubit count of the circuits the three APIs actually deliver for the witness' end state, for all 5962 (configuration, class) pairs. "
+            "two-qubit count of the circuits the three APIs actually deliver for the witness' end state, for all 5962 (configuration, class) pairs, and for every graph state given in graph form (all graphs n<=5, residue classes of graph ids for n=6). "
             "Each optimum comes with a witness circuit that is re-simulated, edge-checked and pushed through Stabilizer(circuit) and the library classifier.",
     "note": "Trusted: the gate rules (re-derived from matrices each run), the C enumerator (cross-checked state-for-state against the Python model on n<=5 and a residue class of n=6; "
             "rebuilt and compared with scipy components in the thorough tier). Assumes CX/CZ/SWAP(=3) are the only two-qubit gates, as the property states. "
@@ -41,8 +41,9 @@ CHECKS["C06"] = {
     "technique": "explicit enumeration of all stabilizer groups; connected components of the state graph under single-qubit gates as oracle; classifier run on every state",
     "text": "The partition of stabilizer groups induced by the library's class id is compared with the partition into connected components of the explicitly "
             "enumerated state graph under H_q,S_q (local-Clifford equivalence by definition): constant on components, injective across, ids exactly 0..K-1. "
-            "Quick: all groups for n<=5, and for n=6 all 32768 graph states + 64 members of each of the 760 components + a residue class (about 125k states); "
-            "thorough: ALL 4922775 six-qubit groups. Presentations (all generating sets n<=3, one-move neighbourhood beyond) and sign vectors are varied.",
+            "Quick: all groups for n<=5, and for n=6 all 32768 graph states + 256 members of each of the 760 components + the residue class R16 (about 520k states); "
+            "thorough: ALL 4922775 six-qubit groups. Presentations (all generating sets n<=3; one-move neighbourhood and dense 'star'/cumulative presentations beyond) and sign vectors are varied; "
+            "every class object is put through all sequences of three queries (id, get_graph, str, ==) and compared with a fresh object.",
     "note": "Trusted: gate rules (checked against matrices), C enumerator (cross-checked against the Python model; components recomputed with scipy in thorough).",
     "design_ref": "5 (C06)",
 }
@@ -175,8 +176,10 @@ CHECKS["C12"] = {
 }
 CHECKS["C13"] = {
     "engine": "histmc",
-    "technique": "explicit-state breadth-first search over call/mutation histories (38-event alphabet, depth 3 quick / 4 thorough), canonical-state deduplication, every call compared with a fresh-interpreter oracle",
-    "text": "Events: 23 public API calls on a tiny argument domain, 7 adversarial mutations of the most recent result and of the most recent arguments, and clearing the caches. Every history is "
+    "technique": "explicit-state breadth-first search over call/mutation histories (61-event alphabet, depth 3 quick / 4 thorough), canonical-state deduplication, every call compared with a fresh-interpreter oracle",
+    "text": "Events: 29 public API calls on a tiny argument domain (incl. fitters and the same state on two restricted connectivities), 9 calls on a caller-held Stabilizer that is reused and mutated in place "
+            "between calls (3 of them requests that must be rejected), 5 calls on held class / table-record / graph objects, 7 adversarial mutations of the most recent result and of the most recent arguments, "
+            "3 in-place changes of the held stabilizer, and clearing the caches. Every history is "
             "replayed on a freshly imported library; states are deduplicated on a value fingerprint of all module/class-level mutable package objects plus the aliasing of caller-held objects. "
             "Invariants on every transition: result equals a fresh interpreter's (three hash seeds agree), arguments unchanged, replay deterministic.",
     "note": "Trusted: the canonical-state abstraction (sound if the package keeps no cross-call memory outside module/class attributes), the serialiser. Bounded: depth and argument domain as stated.",
